@@ -165,6 +165,25 @@ func (v *Vue) evalSlot(ctx VueContext, node *html.Node, slotScope *SlotScope) ([
 				// the content cannot select the same content again.
 				ctx.stack.Push(map[string]any{"__slotScope__": nil})
 				defer ctx.stack.Pop()
+				// the props this slot binds, under the name the page's template declares
+				// (#side="p", v-slot:side="{ x }") - as for the slots of a component
+				if slotContent.TemplateNode != nil {
+					scopedVarName := ""
+					for _, attr := range slotContent.TemplateNode.Attr {
+						if attr.Key == "v-slot" || strings.HasPrefix(attr.Key, "v-slot:") || (len(attr.Key) > 0 && attr.Key[0] == '#') {
+							scopedVarName = strings.TrimSpace(attr.Val)
+						}
+					}
+					if strings.HasPrefix(scopedVarName, "{") && strings.HasSuffix(scopedVarName, "}") {
+						for _, name := range strings.Split(scopedVarName[1:len(scopedVarName)-1], ",") {
+							if name = strings.TrimSpace(name); name != "" {
+								ctx.stack.Set(name, slotProps[name])
+							}
+						}
+					} else if scopedVarName != "" {
+						ctx.stack.Set(scopedVarName, slotProps)
+					}
+				}
 				return v.evaluate(ctx, slotContent.Nodes, 0)
 			}
 		}
